@@ -20,6 +20,7 @@ import Verif.Model.Constraints
   * `authority_sound(_parsed)`  the same on intermediates ++ issuing root, key ids or not
   * `excluded_exact`, `excluded_sound_*`   exclusion over the flat lists
   * `all_paths`, `checked_is_signed`   where the engine is consulted (source-derived tables)
+  * `sign_sound_partial`, `extsan_refuted`   templates whose SANs ride in an extension are not seen by the gate (open finding)
   * `bundle_root_found`, `bundle_sound`   roots read from a PEM bundle: position in the bundle is irrelevant
   * `front_issues_iff`, `front_sound`, `front_client_error`   the HTTP sign/renew/rekey handlers,
                             ACME and SCEP (ACME included since 89421a7)
@@ -1412,5 +1413,39 @@ example : authorityValidateB [caCert "int" "root" "k1" "" {}]
     [.cert (caCert "retired" "retired" "k9" "" {}), .skip,
      .cert (caCert "root" "root" "k0" "" { xDNS := [s "bad.example.com"] } true)]
     { dns := [s "x.bad.example.com"] } = some (.deny .excluded .dns) := by decide
+
+/-! ## 15. What the gate is shown of the template -/
+
+/-- **sign_sound_partial**: `Authority.Sign` allows only RFC 5280-acceptable names *when the
+    template carries them in the name fields* (only DNS / IP / e-mail / URI SANs). Missing for the
+    full clause: templates whose subjectAltName is an extension (`SanCarrier.extension`). -/
+theorem sign_sound_partial (ints roots : List Cert) (n : Names) (last r : Cert)
+    (hl : ints.getLast? = some last) (hr : r ∈ roots) (hs : last.issuer = r.subject)
+    (hv : r.signsLast = true)
+    (hp : ∀ ch, chainForSig ints roots = some ch → ParsedIP (ch.map (·.nc))) :
+    signVerdict .fields ints roots n = .allow → specAccept ((ints ++ [r]).map (·.nc)) n = true :=
+  authority_sound_parsed ints roots n last r hl hr hs hv hp
+
+/-- **extsan_refuted**: with an extended SAN in the template (x509util builds the subjectAltName
+    extension, the name fields stay empty) the gate sees no name: under an intermediate that
+    permits `example.org` only, `web.example.com` is signed. The same holds for the X.509 policy
+    engine, which is asked right after the constraints engine on the same empty fields. -/
+theorem extsan_refuted :
+    ¬ ∀ (c : SanCarrier) (ints roots : List Cert) (n : Names) (r : Cert), r ∈ roots →
+        signVerdict c ints roots n = .allow → specAccept ((ints ++ [r]).map (·.nc)) n = true := by
+  intro h
+  exact absurd
+    (h .extension [caCert "int" "root" "k1" "k0" { pDNS := [s "example.org"] }]
+       [caCert "root" "root" "k0" "" {} true] { dns := [s "web.example.com"] }
+       (caCert "root" "root" "k0" "" {} true) (by simp) (by decide))
+    (by decide)
+
+/-- the same names in the fields are refused -/
+example : signVerdict .fields [caCert "int" "root" "k1" "k0" { pDNS := [s "example.org"] }]
+    [caCert "root" "root" "k0" "" {} true] { dns := [s "web.example.com"] } = .deny .notPermitted .dns := by decide
+
+/-- whatever the names, the gate allows a template of the extension kind -/
+theorem extension_always_allowed (ints roots : List Cert) (n : Names) :
+    signVerdict .extension ints roots n = authorityValidateF ints roots {} := rfl
 
 end Verif.Constraints
